@@ -16,7 +16,7 @@ open OFV.Model.C14 Finset
 variable {R : Type} [CommRing R]
 
 /-- the coefficient operations of a commutative ring with `ω_N = w` -/
-def ringOps (w : R) : CoefOps R := ⟨(· + ·), (· - ·), fun e x => w ^ e * x⟩
+def ringOps (w : R) : CoefOps R := ⟨0, (· + ·), (· - ·), fun e x => w ^ e * x⟩
 
 /-! ### the radix-2 shuffle `i ↦ (i % 2)·nx + i / 2` -/
 
